@@ -202,3 +202,47 @@ def run(ctx):
                        f'borrows: {sorted(written)}', [site(fb, c.bb)],
                        what='BlockIndexBuilder::finish_block takes the trailer\'s checksum type from state it consumes: only the first block '
                             'of a column file is written with the configured checksum, corruption in every later block goes undetected')
+
+    R8 = 'C18-R8'
+
+    ctx.rule(R8, 'what ColumnIndex::from_bytes takes from the footer without checksum protection is cross-checked against the protected '
+                 'part: the block count must consume exactly the checksummed index entries (after the decode loop the remaining '
+                 'index data is tested for emptiness, with an error exit)')
+    fb_ = prog.body(FROM_BYTES)
+    if ctx.anchor(R8, FROM_BYTES, fb_ is not None):
+        ctx.functions_analysed.add(fb_.name)
+        dec = [c for c in fb_.calls if re.search(r'decode_length_delimited$', c.fn or '')]
+        if ctx.anchor(R8, 'from_bytes: decode_length_delimited', dec):
+            buf = set()
+            for c in dec:
+                for a in c.args:
+                    if a['k'] != 'const':
+                        buf |= origin_locals(fb_, a['pl']['l'], depth=3)
+            tests = [c for c in fb_.calls if re.search(r'::(is_empty|has_remaining|remaining|len)$', c.fn or '') and c.args and c.args[0]['k'] != 'const'
+                     and buf & origin_locals(fb_, c.args[0]['pl']['l'], depth=3) and c.bb not in {d.bb for d in dec}]
+            errs = fb_.error_exit_blocks()
+            after = [c for c in tests if any(c.bb in fb_.reachable_from(fb_.succs[d.bb]) for d in dec) and fb_.reachable_from([c.bb]) & errs]
+            ctx.ob(R8, 'from_bytes·count-consumes-the-index-data', bool(after),
+                   f'emptiness / length tests of the index data after the decode loop with an error exit: {[c.bb for c in after]}',
+                   [site(fb_, c.bb) for c in (after or dec)],
+                   what='the block count of an index file is trusted although the checksum does not cover it: a corrupted count makes the '
+                        'column lose its last blocks without an error')
+
+    R9 = 'C18-R9'
+    ctx.rule(R9, 'the checksum type that decides HOW a block is verified is not taken from the unverified block itself: a corrupted trailer '
+                 '(e.g. zeroed: type None, checksum 0) otherwise verifies trivially. In Column::get_block the type given to '
+                 'verify_checksum must not derive from the BlockMeta decoded out of the block being verified')
+    gb = [b_ for b_ in prog.group(GET_BLOCK)] if GET_BLOCK in prog.bodies else []
+    vs = [(g, c) for g in gb for c in g.calls if (c.fn or '').endswith('checksum::verify_checksum')]
+    if ctx.anchor(R9, 'Column::get_block: verify_checksum', vs):
+        for g, c in vs:
+            ctx.functions_analysed.add(g.name)
+            src = origin_locals(g, c.args[0]['pl']['l'], depth=12) if c.args and c.args[0]['k'] != 'const' else set()
+            from_trailer = any((k.fn or '').endswith('BlockMeta::decode') and any(a['k'] != 'const' and a['pl']['l'] in src for a in k.args)
+                               for k in g.calls) or any('BlockMeta' in g.local_ty(l) for l in src)
+            ctx.ob(R9, 'get_block·checksum-type-not-from-the-block', not from_trailer,
+                   f'{g.name}: the checksum type passed to verify_checksum at block {c.bb} ' +
+                   ('derives from the trailer decoded out of the same block' if from_trailer else 'comes from configuration'),
+                   [site(g, c.bb)],
+                   what='Column::get_block takes the checksum type from the trailer of the block it is about to verify: a corrupted trailer '
+                        'that reads {type None, checksum 0} verifies, and the damaged values are returned')
